@@ -136,14 +136,19 @@ impl<W: Write> ProtocolWriter<W> for DefaultProtocolWriter<W> {
         if self.ok {
             #[cfg(feature = "Debug_Serializer")]
             debug!("String {}", value);
-            let mut len = value.len();
+            let len = value.len();
             if len < (1usize << 4) {
                 self.write_type_and_value(FSM_PROTOCOL_TYPE_STRING_LENGTH_4BIT, len as u64, 4);
-            } else {
+            } else if len < (1usize << 12) {
                 self.write_type_and_value(FSM_PROTOCOL_TYPE_STRING_LENGTH_12BIT, len as u64, 12);
-                len &= 0x0FFFusize;
+            } else if len < (1usize << 28) {
+                self.write_type_and_value(FSM_PROTOCOL_TYPE_STRING_LENGTH_28BIT, len as u64, 28);
+            } else {
+                error!("String of {} bytes is too long for the protocol", len);
+                self.ok = false;
+                return;
             }
-            let r = self.writer.write_all(value[0..len].as_bytes());
+            let r = self.writer.write_all(value.as_bytes());
             self.eval_result(r);
         }
     }
